@@ -49,3 +49,41 @@ Proof.
   unfold v_inf_and_rot, v_rot. destruct q as [q0 q1 q2 q3], v as [a b c], wind as [d e f], w as [p s t], r as [x y z].
   apply V3_eq; rcompute; ring.
 Qed.
+
+(* ---- rigid motion of the scene: the aircraft turned by the unit quaternion Q (new orientation quat_mult Q q, Earth velocity and wind
+   turned with it) sees the turned air velocities and leaves turned trailing vortices ---- *)
+Section Rigid.
+  Variable Q : quat R.
+  Hypothesis HQ : qn2 Q = 1.
+  Notation O := (quat_inv_trans Q).
+
+  Lemma O_opp a : O (vopp a) = vopp (O a).
+  Proof. destruct Q as [q0 q1 q2 q3], a as [x y z]. apply V3_eq; rcompute; ring. Qed.
+  Lemma O_divs a k : O (vdivs a k) = vdivs (O a) k.
+  Proof. destruct Q as [q0 q1 q2 q3], a as [x y z]. apply V3_eq; rcompute; unfold Rdiv; ring. Qed.
+  Lemma O_dot a b : vdot (O a) (O b) = vdot a b.
+  Proof. rewrite inv_trans_dot, HQ. ring. Qed.
+
+  Theorem v_inf_and_rot_rigid q v wind w r :
+    v_inf_and_rot (quat_mult Q q) (O v) (O wind) w r = O (v_inf_and_rot q v wind w r).
+  Proof.
+    unfold v_inf_and_rot, v_rot. rewrite inv_trans_mult, !inv_trans_add, O_opp. reflexivity.
+  Qed.
+  Theorem joint_v_inf_rigid mp q v wind w r :
+    joint_v_inf mp (quat_mult Q q) (O v) (O wind) w r = O (joint_v_inf mp q v wind w r).
+  Proof.
+    unfold joint_v_inf, v_rot. destruct mp; rewrite ?inv_trans_mult, !inv_trans_add, O_opp; reflexivity.
+  Qed.
+  Lemma unitv_rigid a : unitv (O a) = O (unitv a).
+  Proof. unfold unitv. rewrite (inv_trans_norm_unit Q a HQ), O_divs. reflexivity. Qed.
+  Lemma body_z_rigid q : body_z (quat_mult Q q) = O (body_z q).
+  Proof. unfold body_z. apply inv_trans_mult. Qed.
+  Lemma project_out_rigid z u : project_out (O z) (O u) = O (project_out z u).
+  Proof. unfold project_out. rewrite O_dot, inv_trans_sub, inv_trans_scale. reflexivity. Qed.
+  Theorem trailing_dir_rigid c q vj : trailing_dir c (quat_mult Q q) (O vj) = O (trailing_dir c q vj).
+  Proof.
+    unfold trailing_dir. destruct c.
+    - rewrite unitv_rigid, body_z_rigid, project_out_rigid, unitv_rigid. reflexivity.
+    - apply unitv_rigid.
+  Qed.
+End Rigid.
